@@ -19,11 +19,26 @@ import (
 
 // runnerOp is one operation of a history.
 type runnerOp struct {
-	Op  string `json:"op"`            // setthis | setvalue | resolve | set | get
-	Map string `json:"map,omitempty"` // setthis: "A", "B" or "" (nil)
-	Key string `json:"key,omitempty"`
-	Val int64  `json:"val,omitempty"`
-	F   string `json:"f,omitempty"` // resolve: formula text
+	Op  string  `json:"op"`            // setthis | setvalue | resolve | set | get
+	Map string  `json:"map,omitempty"` // setthis: "A", "B" or "" (nil)
+	Key string  `json:"key,omitempty"`
+	Val int64   `json:"val,omitempty"`
+	F   string  `json:"f,omitempty"`   // resolve: formula text
+	Str *string `json:"str,omitempty"` // setvalue / set: a string value instead of the integer Val
+}
+
+func (o runnerOp) value() (interface{}, mv) {
+	if o.Str != nil {
+		return *o.Str, mvStr(*o.Str)
+	}
+	return int(o.Val), mvInt(o.Val)
+}
+
+func (o runnerOp) valText() string {
+	if o.Str != nil {
+		return fmt.Sprintf("%q", *o.Str)
+	}
+	return fmt.Sprint(o.Val)
 }
 
 func (o runnerOp) String() string {
@@ -34,11 +49,11 @@ func (o runnerOp) String() string {
 		}
 		return "SetThis(" + o.Map + ")"
 	case "setvalue":
-		return fmt.Sprintf("SetThisValue(%q,%d)", o.Key, o.Val)
+		return fmt.Sprintf("SetThisValue(%q,%s)", o.Key, o.valText())
 	case "resolve":
 		return "Resolve(" + o.F + ")"
 	case "set":
-		return fmt.Sprintf("Set(%q,%d)", o.Key, o.Val)
+		return fmt.Sprintf("Set(%q,%s)", o.Key, o.valText())
 	case "get":
 		return fmt.Sprintf("Get(%q)", o.Key)
 	}
@@ -84,16 +99,18 @@ func checkHistory(hh history) (msg string, unspec bool) {
 				cur = op.Map
 			}
 		case "setvalue":
-			r.SetThisValue(op.Key, int(op.Val))
+			gv, mvv := op.value()
+			r.SetThisValue(op.Key, gv)
 			if cur == "" {
 				ownN++
 				cur = fmt.Sprintf("own%d", ownN)
 				model[cur] = map[string]mv{}
 			}
-			model[cur][op.Key] = mvInt(op.Val)
+			model[cur][op.Key] = mvv
 		case "set":
-			r.Set(op.Key, int(op.Val))
-			aux[op.Key] = mvInt(op.Val)
+			gv, mvv := op.value()
+			r.Set(op.Key, gv)
+			aux[op.Key] = mvv
 		case "get":
 			got := r.Get(op.Key)
 			want, ok := aux[op.Key]
@@ -172,7 +189,9 @@ func init() {
 	})
 }
 
-var c20Pool = []string{"$a + 1", "[$a + 1, $a]", "[$a + $a, $a, $b]", "$a", "$a = 5", "$a = x + 1", "$a = 7, $a", "x", "this.x", "k", "[x, $a, k]", "$b = $a", "[$a, $b]", "this.$a", "$a = $a"}
+var c20Pool = []string{"$a + 1", "[$a + 1, $a]", "[$a + $a, $a, $b]", "$a", "$a = 5", "$a = x + 1", "$a = 7, $a", "x", "this.x", "k", "[x, $a, k]", "$b = $a", "[$a, $b]", "this.$a", "$a = $a", "$b = '2024-01-02T03:04:05Z', $b", "[k, x, __v]", "$__v = x, [$__v, __v]",
+	// locals keep every digit: integers beyond 2^53 and their successors
+	"$a = 9007199254740993", "$b = $a + 1, [$a, $b, $a == $b]", "$a = 1234567890123456789, $a + 0", "[$a == 9007199254740993, $a == 9007199254740992]"}
 
 var c20Alphabet = []runnerOp{
 	{Op: "setthis", Map: "A"}, {Op: "setthis", Map: "B"}, {Op: "setthis", Map: ""},
@@ -260,23 +279,32 @@ func TestC20Exhaustive(t *testing.T) {
 
 // TestC20Random: longer histories with the full formula pool.
 func TestC20Random(t *testing.T) {
-	run := h.Begin("C20", "random", "rapid: histories of 1-14 operations drawn from the same operation kinds with random keys {x, k, $a, $b}, random values and the 12-formula pool; same oracle; non-trivial as in the exhaustive part; distinct by history")
+	run := h.Begin("C20", "random", "rapid: histories of 1-14 operations drawn from the same operation kinds with random keys {x, k, $a, $b, __v, $__v}, random integer values (1 in 5 beyond 2^53) or strings that look like timestamps / numbers / keywords, and the 22-formula pool; same oracle; non-trivial as in the exhaustive part; distinct by history")
 	defer run.End(t)
 	h.RapidSetup(h.N(6000, 2000000), "c20rand")
 	rapid.Check(t, func(rt *rapid.T) {
 		n := rapid.IntRange(1, 14).Draw(rt, "n")
 		var hh history
 		for i := 0; i < n; i++ {
-			key := rapid.SampledFrom([]string{"x", "k", "$a", "$b"}).Draw(rt, "key")
+			key := rapid.SampledFrom([]string{"x", "k", "$a", "$b", "x", "$a", "__v", "$__v"}).Draw(rt, "key")
+			val := int64(rapid.IntRange(0, 99).Draw(rt, "v"))
+			if rapid.IntRange(0, 4).Draw(rt, "big?") == 0 {
+				val = rapid.SampledFrom([]int64{9007199254740993, -9007199254740993, 1234567890123456789, 9223372036854775807, 4611686018427387905}).Draw(rt, "bigv")
+			}
+			var sval *string
+			if rapid.IntRange(0, 3).Draw(rt, "strval?") == 0 {
+				txt, _ := genLookalike(rt) // a string that looks like a timestamp, a number, a keyword ...
+				sval = &txt
+			}
 			switch rapid.IntRange(0, 7).Draw(rt, "op") {
 			case 0:
 				hh.Ops = append(hh.Ops, runnerOp{Op: "setthis", Map: rapid.SampledFrom([]string{"A", "B", ""}).Draw(rt, "map")})
 			case 1:
-				hh.Ops = append(hh.Ops, runnerOp{Op: "setvalue", Key: key, Val: int64(rapid.IntRange(0, 99).Draw(rt, "v"))})
+				hh.Ops = append(hh.Ops, runnerOp{Op: "setvalue", Key: key, Val: val, Str: sval})
 			case 2, 3, 4:
 				hh.Ops = append(hh.Ops, runnerOp{Op: "resolve", F: rapid.SampledFrom(c20Pool).Draw(rt, "f")})
 			case 5:
-				hh.Ops = append(hh.Ops, runnerOp{Op: "set", Key: key, Val: int64(rapid.IntRange(0, 99).Draw(rt, "v"))})
+				hh.Ops = append(hh.Ops, runnerOp{Op: "set", Key: key, Val: val, Str: sval})
 			default:
 				hh.Ops = append(hh.Ops, runnerOp{Op: "get", Key: key})
 			}
